@@ -177,6 +177,12 @@ def opCliMeth (args : List SExp) : Option OpResult := do
       pure ⟨"?header-parsers-not-modelled", fun got =>
         let c := (split got).1
         if c = "panic" || c = "hang" then [("C14", s!"client-{c}-on-a-response-header")] else []⟩
+    | .list [.atom "oddprop"] =>
+      -- a 200 propstat whose entity tag / date / length texts are not what their codecs accept: a value or an error,
+      -- never a panic or a hang (the property decoders are C16's; here only that the call survives them)
+      pure ⟨"?property-text-decoders-not-modelled-here", fun got =>
+        let c := (split got).1
+        if c = "panic" || c = "hang" then [("C14", s!"client-{c}-on-a-property-text")] else []⟩
     | .list [.atom "carry", _] =>
       -- two resources, the second reporting under 404 what the first reports under 200
       let judge : String → List (String × String) := fun got =>
